@@ -134,6 +134,8 @@ pub struct SemWorld<A: SemApi> {
     k: usize,
     max_n: usize,
     scale: usize,
+    huge: bool,
+    initial: usize,
     realism: u64,
     weights: [u32; 10],
     next_id: usize,
@@ -217,12 +219,28 @@ impl<A: SemApi> SemWorld<A> {
     }
 }
 
+impl<A: SemApi> SemWorld<A> {
+    /// op.b → number of permits: units of `scale`, or (top bit set, `huge` runs) the initial
+    /// total minus a few units, i.e. a request close to `usize::MAX`
+    fn amount(&self, b: u32) -> usize {
+        if b & 0x8000_0000 != 0 {
+            self.initial.saturating_sub((b & 0xff) as usize)
+        } else {
+            b as usize * self.scale
+        }
+    }
+}
+
 impl<A: SemApi> World for SemWorld<A> {
     fn new(cfg: &Cfg, _env: &mut Env) -> Self {
         let fair = cfg_get(cfg, "fair", 0) != 0;
         // every quantity is a multiple of `scale` (byte-budget style semaphores: > 2^32 per request)
         let scale = cfg_get(cfg, "scale", 1).max(1) as usize;
-        let permits = cfg_get(cfg, "permits", 1) as usize * scale;
+        // `huge`: the total is within a few units of usize::MAX (the counter never overflows: this
+        // mode has no plain release(), permits only come back through releasers)
+        let huge = cfg!(target_pointer_width = "64") && cfg_get(cfg, "huge", 0) != 0;
+        let scale = if huge { 1 } else { scale };
+        let permits = if huge { usize::MAX - cfg_get(cfg, "permits", 1) as usize } else { cfg_get(cfg, "permits", 1) as usize * scale };
         let (root, h) = A::create(fair, permits);
         let observer = if A::SHARED && cfg_get(cfg, "observer", 1) != 0 { Some(A::clone_handle(&h)) } else { None };
         let mut handles: Vec<Option<A::Handle>> = (0..MAX_HANDLES).map(|_| None).collect();
@@ -248,6 +266,8 @@ impl<A: SemApi> World for SemWorld<A> {
             k: cfg_get(cfg, "k", 3) as usize,
             max_n: cfg_get(cfg, "max_n", 3) as usize,
             scale,
+            huge,
+            initial: permits,
             realism: cfg_get(cfg, "realism", 50) as u64,
             weights,
             next_id: 0,
@@ -295,7 +315,7 @@ impl<A: SemApi> World for SemWorld<A> {
         if self.next_id >= MAX_IDS - 1 || hs.is_empty() {
             w[3] = 0;
         }
-        if hs.is_empty() {
+        if hs.is_empty() || self.huge {
             w[4] = 0;
         }
         if rels.is_empty() {
@@ -324,7 +344,8 @@ impl<A: SemApi> World for SemWorld<A> {
             OP_NEW => {
                 let id = self.next_id;
                 self.next_id += 1;
-                Op::new(OP_NEW, id as u32, rng.below(self.max_n as u64 + 1) as u32, 0)
+                let b = if self.huge && rng.pct(35) { 0x8000_0000 | rng.below(4) as u32 } else { rng.below(self.max_n as u64 + 1) as u32 };
+                Op::new(OP_NEW, id as u32, b, 0)
             }
             OP_POLL => {
                 let woken: Vec<usize> = pollable.iter().copied().filter(|id| env.slots[*id].uw() || env.slots[*id].st == St::Fresh).collect();
@@ -342,7 +363,8 @@ impl<A: SemApi> World for SemWorld<A> {
             OP_TRY => {
                 let id = self.next_id;
                 self.next_id += 1;
-                Op::new(OP_TRY, id as u32, rng.below(self.max_n as u64 + 1) as u32, 0)
+                let b = if self.huge && rng.pct(25) { 0x8000_0000 | rng.below(4) as u32 } else { rng.below(self.max_n as u64 + 1) as u32 };
+                Op::new(OP_TRY, id as u32, b, 0)
             }
             OP_RELEASE => Op::new(OP_RELEASE, 0, rng.below(self.max_n as u64 + 1) as u32, 0),
             OP_DISARM => Op::new(OP_DISARM, *rng.pick(rels) as u32, 0, 0),
@@ -363,7 +385,7 @@ impl<A: SemApi> World for SemWorld<A> {
             OP_NEW => {
                 if self.prim_alive && !self.used[id] {
                     if let Some(h) = self.handles.iter().flatten().next() {
-                        let n = op.b as usize * self.scale;
+                        let n = self.amount(op.b);
                         if let Some(f) = env.call("acquire", || A::acquire(h, n)) {
                             self.used[id] = true;
                             self.futs.put(id, f);
@@ -424,7 +446,7 @@ impl<A: SemApi> World for SemWorld<A> {
             OP_TRY => {
                 if self.prim_alive && !self.used[id] {
                     if let Some(h) = self.handles.iter().flatten().next() {
-                        let n = op.b as usize * self.scale;
+                        let n = self.amount(op.b);
                         let any_pending = env.any_pending(0, usize::MAX);
                         if any_pending {
                             env.fault("barge");
@@ -459,7 +481,7 @@ impl<A: SemApi> World for SemWorld<A> {
             OP_RELEASE => {
                 if self.prim_alive {
                     if let Some(h) = self.handle() {
-                        let n = op.b as usize * self.scale;
+                        let n = self.amount(op.b);
                         if env.call("release", || A::release(h, n)).is_some() {
                             self.permits += n;
                         }
@@ -557,6 +579,7 @@ fn draw_cfg(rng: &mut Rng) -> Cfg {
     c.insert("max_n".into(), max_n);
     let scale = if cfg!(target_pointer_width = "64") && rng.pct(12) { *rng.pick(&[1i64 << 32, (1i64 << 32) + 1, 1i64 << 48]) } else { 1 };
     c.insert("scale".into(), scale);
+    c.insert("huge".into(), (cfg!(target_pointer_width = "64") && rng.pct(6)) as i64);
     // live futures: mostly few (small joint states recur), sometimes many (batch loops, deep heaps / queues)
     let k = if rng.pct(88) { rng.range(1, 6) } else { *rng.pick(&[8i64, 12]) };
     c.insert("k".into(), k);
@@ -602,8 +625,14 @@ fn shrink_op(op: Op) -> Vec<Op> {
     match op.k {
         OP_POLL if op.b != 0 => v.push(Op { b: 0, ..op }),
         OP_NEW | OP_TRY | OP_RELEASE => {
-            for n in 0..op.b {
-                v.push(Op { b: n, ..op });
+            if op.b & 0x8000_0000 != 0 {
+                for n in 0..(op.b & 0xff) {
+                    v.push(Op { b: 0x8000_0000 | n, ..op });
+                }
+            } else {
+                for n in 0..op.b.min(16) {
+                    v.push(Op { b: n, ..op });
+                }
             }
         }
         _ => {}
